@@ -24,7 +24,7 @@ from sim.stubs.link import FakeLink
 from sim.stubs.qmem_trace import TraceQMem
 
 PROP = "C13"
-RUNS = {"quick": 12000, "thorough": 1500000}
+RUNS = {"quick": 12000, "thorough": 800000}
 BUDGET_S = {"quick": 60, "thorough": 1500}
 RULE = ("one run = history of register / subroutine / keep-delivery / stop / re-register events over 1-3 application "
         "ids on one real controller, interleaved per instruction by the seeded scheduler; non-trivial = a lifecycle "
